@@ -279,3 +279,22 @@ MANIFEST_TEXT["C17"] = dict(
          "public API by the harness, and the real dump is compared with the model's.",
     note=_CAP_NOTE + "Cross-storage comparisons (ptr::eq on the storage) are checked by the harness only.",
     technique="Lean 4 proof (invariant preservation; fuel-independence and traversal lemmas) + differential correspondence + law cross-checks on the real API")
+
+PROPS["C18"] = dict(suites=[("pred", {Q: 150, T: 4000})],
+    rule="pred suite: storages from generated programs (single capture layer, no filter; site names / targets / field values aligned with "
+         "the predicate atoms); predicate instances are compiled into the harness from a generated table (types are static in Rust): "
+         "32 atoms per side (level exact / LevelFilter incl. OFF, target path / custom, name, field with typed constants of every kind "
+         "and value(..) views, message, parent, ancestor) + all `&` / `|` combinations over a 15-atom core (depth 2) + 60 sampled depth-3 "
+         "combinations = 601 span and 601 event predicates; every query evaluates eval, find_case(true), find_case(false); scanner "
+         "helpers single/first/last/all/none over all spans/events, children, events, descendants, deep events under catch_unwind; "
+         "non-trivial = >= 10 predicate queries on existing items of a storage with >= 2 spans; distinct by input text")
+MANIFEST_TEXT["C18"] = dict(
+    text="Theorems (every predicate built from the factories and & / |, any depth, every item of every storage): a supporting case for "
+         "an expected outcome exists exactly when evaluation yields that outcome (C18_case_iff, induction over the predicate; value "
+         "predicates separately); reference meaning of each factory: target = path or below it at a `::` boundary; level exact / "
+         "threshold / OFF matches nothing; field present and matching with strict value kinds; message; direct parent; any ancestor; "
+         "and / or; scanner helpers are determined by the list of matching items (single <-> exactly one, first/last = head/last of the "
+         "matches, all, none). Model eval/hasCase mirror the code arm by arm and are tied to it by 1202 compiled predicate instances "
+         "evaluated on real storages.",
+    note=_CAP_NOTE + "Leaf predicates of the `predicates` crate (eq, lt/gt, str::starts_with) are assumed to satisfy find_case(e,x).is_some() <-> eval(x)=e; the harness checks this for every atom it uses.",
+    technique="Lean 4 proof (structural induction over predicates) + differential correspondence on compiled predicate instances")
